@@ -197,6 +197,14 @@ func (w *World) sessPost(idx int, repo string, q url.Values, body []byte, obj *O
 				}
 				w.m.usedDigests[mountStr] = true
 				w.x.out.probe("mount-201")
+				// the copy went through an upload session of its own: for a moment the repository had one more
+				if max := w.k.uploadMax(); max > 0 && w.openCount(repo)+1 > max {
+					for _, o := range w.m.sess {
+						if o.open && o.repo == repo {
+							o.maybeGone = true
+						}
+					}
+				}
 				return nil, r
 			}
 		} else if (tgtHas && !tgt.maybeGone) || (srcHas && dStr == "") {
